@@ -1,6 +1,7 @@
 package server
 
 import (
+	"errors"
 	"sync"
 
 	"github.com/cbeuw/Cloak/internal/server/usermanager"
@@ -19,7 +20,12 @@ type ActiveUser struct {
 
 	sessionsM sync.RWMutex
 	sessions  map[uint32]*mux.Session
+	// terminated is set (under sessionsM) once the panel has forgotten this record; no session may be
+	// created on it afterwards
+	terminated bool
 }
+
+var ErrUserTerminated = errors.New("active user record has been terminated")
 
 // CloseSession closes a session and removes its reference from the user
 func (u *ActiveUser) CloseSession(sessionID uint32, reason string) {
@@ -43,6 +49,9 @@ func (u *ActiveUser) CloseSession(sessionID uint32, reason string) {
 func (u *ActiveUser) GetSession(sessionID uint32, config mux.SessionConfig) (sesh *mux.Session, existing bool, err error) {
 	u.sessionsM.Lock()
 	defer u.sessionsM.Unlock()
+	if u.terminated {
+		return nil, false, ErrUserTerminated
+	}
 	if sesh = u.sessions[sessionID]; sesh != nil {
 		return sesh, true, nil
 	} else {
@@ -69,6 +78,15 @@ func (u *ActiveUser) closeAllSessions(reason string) {
 		delete(u.sessions, sessionID)
 	}
 	u.sessionsM.Unlock()
+}
+
+// terminate marks the record as terminated, so that GetSession refuses to create further sessions on it,
+// and closes all of its sessions
+func (u *ActiveUser) terminate(reason string) {
+	u.sessionsM.Lock()
+	u.terminated = true
+	u.sessionsM.Unlock()
+	u.closeAllSessions(reason)
 }
 
 // NumSession returns the number of active sessions
